@@ -129,7 +129,7 @@ func TestC12(t *testing.T) {
 }
 
 func testC12Histories(t *testing.T) {
-	(&smCheck{property: "C12", kind: "c12", rule: ruleC12, quick: 2500, thorough: 60000, stepsQ: 20, stepsT: 30,
+	(&smCheck{property: "C12", kind: "c12", rule: ruleC12, quick: 2500, thorough: 20000, stepsQ: 20, stepsT: 30,
 		backends: []string{run.Bbolt, run.Bbolt, run.BadgerMem},
 		profile:  func(rt *rapid.T) *sm.Profile { return c12Profile() },
 		session:  c12Session,
@@ -147,7 +147,7 @@ func testC12Histories(t *testing.T) {
 
 const ruleC13 = "model-based state machine over a name alphabet with prefix-related, dotted, colon, unicode, empty and very long (520 / 801 bytes) collection names, 2-5 live collections sharing the same ids, all operation kinds including indexes and drops. After every step: ListCollections (as a set) and HasCollection for every name of the alphabet equal the model, sentinel errors are exact, and every collection - in particular every one other than the operated one - has exactly the model's documents, index list and Count. An evaluation is one step; non-trivial when the operated collection has a live sibling whose name is prefix-related to it or that shares an id with it; distinct = distinct (operation, model state). A second part races 2-5 concurrent creators of one name (CreateCollection, CreateCollectionByQuery, ImportCollection; schedule perturbed at every store call): at most one may succeed, the others fail with ErrCollectionExist (or a store conflict) without side effects, and the full state (contents, counters, raw key audit) equals the winner's; every race counts as one non-trivial evaluation."
 
-var c13Names = []string{"A", "B", "a", "ab", "a.b", "a:b", "c", "coll", "é", "", "a b", "c:a", strings.Repeat("L", 520), strings.Repeat("L", 800) + "x"}
+var c13Names = []string{"A", "B", "a", "ab", "a.b", "a:b", "c", "coll", "é", "", "a b", "c:a", "c%d", "100%", strings.Repeat("L", 520), strings.Repeat("L", 800) + "x"}
 
 func c13Profile() *sm.Profile {
 	return &sm.Profile{
@@ -252,19 +252,19 @@ func testC13Histories(t *testing.T) {
 
 // ---------------------------------------------------------------------------------- C14
 
-const ruleC14 = "model-based state machine on one or two collections over an index-field alphabet with prefix pairs (x/xy) and dotted sub-paths (n/n.a/n.b), CreateIndex/DropIndex/HasIndex/ListIndexes interleaved with writes. After every step ListIndexes and HasIndex for every field equal the model (sentinels exact, including on missing collections); after every catalog change every surviving index must answer an ascending and a descending ordered scan and range/equality queries around a stored value exactly like the model. An evaluation is one step; non-trivial when the step creates or drops an index while a sibling index with a prefix/dotted relation exists; distinct = distinct (operation, model state). A second part races concurrent CreateIndex / DropIndex of the same fields with writes and queries (schedule perturbed at every store call) and requires the history, including a sequential epilogue of ListIndexes and index-ordered scans, to be linearizable."
+const ruleC14 = "model-based state machine on one or two collections over an index-field alphabet with prefix pairs (x/xy), dotted sub-paths (n/n.a/n.b) and names containing '%' (p1, p%d, q%), CreateIndex/DropIndex/HasIndex/ListIndexes interleaved with writes. After every step ListIndexes and HasIndex for every field equal the model (sentinels exact, including on missing collections); after every catalog change every surviving index must answer an ascending and a descending ordered scan and range/equality queries around a stored value exactly like the model. An evaluation is one step; non-trivial when the step creates or drops an index while a sibling index with a prefix/dotted relation exists; distinct = distinct (operation, model state). A second part races concurrent CreateIndex / DropIndex of the same fields with writes and queries (schedule perturbed at every store call) and requires the history, including a sequential epilogue of ListIndexes and index-ordered scans, to be linearizable."
 
-var c14Fields = []string{"x", "xy", "n", "n.a", "n.b", "y", "s", "_id"}
+var c14Fields = []string{"x", "xy", "n", "n.a", "n.b", "y", "s", "_id", "p1", "p%d", "q%"}
 
 func c14Profile() *sm.Profile {
 	return &sm.Profile{
 		Name:        "c14",
 		Colls:       []string{"A", "AB", "zz"},
 		IndexFields: c14Fields,
-		Doc:         gen.DocCfg{Val: gen.ValCfg{MaxDepth: 1}, PAbsent: 4, Fields: []string{"x", "xy", "n", "y", "s", "u"}},
+		Doc:         gen.DocCfg{Val: gen.ValCfg{MaxDepth: 1}, PAbsent: 4, Fields: []string{"x", "xy", "n", "y", "s", "u", "p1", "p%d", "q%"}},
 		IdPool:      16,
 		MaxDocs:     10,
-		Crit:        gen.CritEnv{Val: gen.ValCfg{MaxDepth: 1}, MaxDepth: 2, Fields: []string{"x", "xy", "n", "n.a", "n.b", "y", "s", "_id"}},
+		Crit:        gen.CritEnv{Val: gen.ValCfg{MaxDepth: 1}, MaxDepth: 2, Fields: []string{"x", "xy", "n", "n.a", "n.b", "y", "s", "_id", "p1", "p%d", "q%"}},
 		SortFields:  c14Fields,
 		Weights: []sm.W{{Kind: "createcoll", Weight: 3}, {Kind: "dropcoll", Weight: 1}, {Kind: "insert", Weight: 12}, {Kind: "replace", Weight: 3},
 			{Kind: "updatebyid", Weight: 6}, {Kind: "update", Weight: 4}, {Kind: "updatefunc", Weight: 4}, {Kind: "delete", Weight: 3},
@@ -294,7 +294,7 @@ func TestC14(t *testing.T) {
 		// the index catalog under concurrent CreateIndex / DropIndex of the same fields
 		col := collector("C14", ruleC14)
 		check(t, "C14", cases(60, 1500), 0, func(rt *rapid.T) {
-			h, verdict := concurrentCase(rt, "C14", []string{"createindex", "createindex", "createindex", "dropindex", "dropindex", "insert", "updatebyid", "find"})
+			h, verdict := concurrentCase(rt, "C14", []string{"createindex", "createindex", "createindex", "dropindex", "dropindex", "insert", "updatebyid", "deletebyid", "deletebyid", "find"})
 			col.Case(overlapWrite(h), hashOf(h.Setup, len(h.Ops), h.Ops[0].Op), func() interface{} {
 				return map[string]interface{}{"mode": "concurrent", "backend": h.Backend, "operations": len(h.Ops), "verdict": verdict}
 			}, "concurrent", "verdict:"+verdict)
